@@ -362,7 +362,17 @@ func attacksFor(prop string, t *harness.TxSpec, w *harness.World, thorough bool)
 	if prop == "C02" {
 		return amountAttacks(t)
 	}
-	return addressAttacks(t, w, thorough)
+	// C03: every address field pointed elsewhere - and every amount made NEGATIVE (a negative amount turns the
+	// direction of a transfer round: the counterparty, who signed nothing, pays). (Added after a seeded change - a
+	// DOMAIN_SEND of a negative amount debiting the name's beneficiary - was reported by the no-value-creation
+	// check only because the victim's balance also went below zero.)
+	out := addressAttacks(t, w, thorough)
+	for _, a := range amountAttacks(t) {
+		if strings.HasPrefix(a.class, "minus-") {
+			out = append(out, a)
+		}
+	}
+	return out
 }
 
 // kindFamily groups the transaction kinds that act on the same records.
